@@ -5,10 +5,15 @@ use crate::engine::Ctx;
 pub mod common;
 pub mod c01;
 pub mod c02;
+pub mod c03;
+pub mod c04;
+pub mod c05;
 pub mod c06;
 pub mod c07;
+pub mod c08;
 pub mod c10;
 pub mod c14;
+pub mod c17;
 
 pub struct PropDef {
     pub id: &'static str,
@@ -22,4 +27,4 @@ pub struct PropDef {
     pub needs_refnoise: bool,
 }
 
-pub const ALL: &[PropDef] = &[c01::DEF, c02::DEF, c06::DEF, c07::DEF, c10::DEF, c14::DEF];
+pub const ALL: &[PropDef] = &[c01::DEF, c02::DEF, c03::DEF, c04::DEF, c05::DEF, c06::DEF, c07::DEF, c08::DEF, c10::DEF, c14::DEF, c17::DEF];
